@@ -11,13 +11,15 @@ import time
 
 
 class FTPServer(object):
-    def __init__(self, tree, address='127.0.0.1', port=21, mlsd=False, listing_style='unix', on_command=None):
+    def __init__(self, tree, address='127.0.0.1', port=21, mlsd=False, listing_style='unix', on_command=None, on_connect=None):
         self.tree = tree
         self.address = address
         self.port = port
         self.mlsd = mlsd
         self.listing_style = listing_style
-        self.on_command = on_command
+        self.on_command = on_command      # may return 'close' (drop the connection) or bytes (sent instead of the normal reply)
+        self.on_connect = on_connect      # (connection index) -> None | 'close' | bytes sent instead of the welcome
+        self.n_connections = 0
         self.log = []
         self._lock = threading.Lock()
         self._sock = None
@@ -103,7 +105,16 @@ class FTPServer(object):
         try:
             conn.settimeout(30)
             conn.setsockopt(socket.IPPROTO_TCP, socket.TCP_NODELAY, 1)
-            send('220 verif ftp ready')
+            with self._lock:
+                index = self.n_connections
+                self.n_connections += 1
+            act = self.on_connect(index) if self.on_connect else None
+            if act == 'close':
+                return
+            if isinstance(act, bytes):
+                conn.sendall(act)
+            else:
+                send('220 verif ftp ready')
             buf = b''
             while not self.stopping:
                 while b'\r\n' not in buf:
@@ -122,7 +133,12 @@ class FTPServer(object):
                     entry['seq'] = len(self.log)
                     self.log.append(entry)
                 if self.on_command:
-                    self.on_command(entry)
+                    act = self.on_command(entry)
+                    if act == 'close':
+                        return
+                    if isinstance(act, bytes):
+                        conn.sendall(act)
+                        continue
                 if cmd == 'USER':
                     send('331 password please')
                 elif cmd == 'PASS':
